@@ -278,7 +278,8 @@ func regStd() {
 	})
 	regEnv("strconv.ParseInt", "strconv.ParseInt(s,10,64): ParseInt(FormatInt(n)) == n; arbitrary error otherwise", func(ex *Executor, st *State, c *callCtx) []callResult {
 		s := ex.asTerm(st, c.Args[0])
-		err := ex.Fresh("parseint_err", SInt)
+		// (a strconv error quotes its input: the error term carries the operand)
+		err := App(strings.Trim(ex.Fresh("parseint_err", SInt).Op, "|")+"!of", SInt, s)
 		return one(st, &TupleV{V: []Value{App("atoi", SInt, s), err}})
 	})
 	regEnv("strconv.FormatInt", "strconv.FormatInt(n,10): itoa(n)", func(ex *Executor, st *State, c *callCtx) []callResult {
@@ -289,7 +290,8 @@ func regStd() {
 	})
 	regEnv("strconv.Atoi", "strconv.Atoi: Atoi(Itoa(n)) == n", func(ex *Executor, st *State, c *callCtx) []callResult {
 		s := ex.asTerm(st, c.Args[0])
-		err := ex.freshErr(st, "atoi")
+		err := App(strings.Trim(ex.Fresh("atoi_err", SInt).Op, "|")+"!of", SInt, s)
+		st.Fact(Or(isNilT(err), App("env_error", SBool, err)))
 		return one(st, &TupleV{V: []Value{App("atoi", SInt, s), err}})
 	})
 
